@@ -294,6 +294,8 @@ impl TrackShared {
 	}
 
 	pub fn state(&self) -> TrackPlaybackState {
+		#[cfg(feature = "verif-hooks")]
+		crate::verif::sync_point("track.state.load");
 		match self.state.load(Ordering::SeqCst) {
 			0 => TrackPlaybackState::Playing,
 			1 => TrackPlaybackState::Pausing,
@@ -305,15 +307,21 @@ impl TrackShared {
 	}
 
 	pub fn set_state(&self, playback_state: PlaybackState) {
+		#[cfg(feature = "verif-hooks")]
+		crate::verif::sync_point("track.state.store");
 		self.state.store(playback_state as u8, Ordering::SeqCst);
 	}
 
 	#[must_use]
 	pub fn is_marked_for_removal(&self) -> bool {
+		#[cfg(feature = "verif-hooks")]
+		crate::verif::sync_point("track.removed.load");
 		self.removed.load(Ordering::SeqCst)
 	}
 
 	pub fn mark_for_removal(&self) {
+		#[cfg(feature = "verif-hooks")]
+		crate::verif::sync_point("track.removed.store");
 		self.removed.store(true, Ordering::SeqCst);
 	}
 }
